@@ -57,9 +57,21 @@ def r10_1(ctx, fx):
                 addr_locals.add(s["lhs"][0])
     ctx.anchor("R10.1", "add_known_address: loop address binding", len(addr_locals), 1, cfg=fx.cfg)
     addr_origins = {fn.origin({"c": [l]}).lstrip("&") for l in addr_locals} | {"_%d" % l for l in addr_locals}
-    same = lambda o: fn.origin(o).lstrip("&") in addr_origins
+    def same(o):
+        """the operand is the address being added: the loop item itself, or that item with `/p2p/<peer>` appended (Multiaddr::with)"""
+        if fn.origin(o).lstrip("&") in addr_origins:
+            return True
+        rs = guards.rootstrs(fn, o)
+        others = {x for x in rs if x.startswith("call:") and not re.search(r"Iterator>?::next$|Multiaddr::with$|Into(<.*>)?>?::into$|IntoIterator>?::into_iter$|Multiaddr::iter$|Iterator>?::any$|Clone>?::clone$", x)}
+        return any(re.search(r"Iterator>?::next$", x) for x in rs) and not others
     ctx.ob("R10.1", "add_known_address/gate-checks-the-address-being-added", same(sup[0].args[1]) and same(loc[0].args[1]), site=fn.site(sup[0].node), cfg=fx.cfg,
            detail="origins: %s / %s" % (fn.origin(sup[0].args[1]), fn.origin(loc[0].args[1])))
+    # an address that names no peer is remembered with the peer id appended ("or no peer, in which case the id is appended"): since
+    # supported_transport only accepts addresses that end in /p2p/<id>, the append must happen before the gate - the gate's argument is
+    # rooted in a Multiaddr::with(P2p(peer)) - otherwise such addresses are always dropped and the append branch is dead code
+    rs_gate = guards.rootstrs(fn, sup[0].args[1])
+    ctx.ob("R10.1", "add_known_address/peer-id-appended-before-the-transport-gate", any(x.endswith("Multiaddr::with") for x in rs_gate), site=fn.site(sup[0].node), cfg=fx.cfg,
+           detail="roots of the gated address: %s" % sorted(rs_gate)[:8])
     t_sup = fn.bool_tests(sup[0].dest[0])
     t_loc = fn.bool_tests(loc[0].dest[0])
     nes = [c for c in fn.calls(r"PartialEq(<.*>)?>?::(ne|eq)$|cmp::impls::(<impl .*>::)?(ne|eq)$")
@@ -130,6 +142,35 @@ MAP_MUT = r"HashMap::(insert|remove|entry|get_mut|retain|clear|drain|extend|valu
 def is_store_map(c):
     a = c.f.get("args") or []
     return len(a) >= 2 and a[0] == "multiaddr::Multiaddr" and a[1].endswith("address::AddressRecord")
+
+
+def r10_6(ctx, fx):
+    """dial_address remembers an address only if it can be dialed by an enabled transport: the AddressStore::insert of the dialed
+    address lies behind the test that its transport is installed.  (A refused `/ws` address kept in the store of a TCP-only node later
+    takes a dial slot, or wedged the peer before F16.)"""
+    fn = ctx.fn(fx, "transport::manager::TransportManager::dial_address::{closure#0}", "R10.6")
+    if fn is None:
+        return
+    ins = [c for c in fn.calls(r"AddressStore::insert$")]
+    ctx.anchor("R10.6", "dial_address: AddressStore::insert", len(ins), 1, cfg=fx.cfg)
+    ok_edges = set()
+    for c in fn.calls(r"(IndexMap|HashMap)(<.*>)?::contains_key$|TransportContext::contains\w*$"):
+        if "transports" in fn.recv(c):
+            for sw, t, f in fn.bool_tests(c.dest[0]):
+                ok_edges.add((sw, t))
+    for c in fn.calls(r"TransportContext::get_mut$|(IndexMap|HashMap)(<.*>)?::get(_mut)?$"):
+        if "transports" in fn.recv(c):
+            for sw in fn.discr_switches():
+                if sw[1] and c.dest and sw[1][0] in fn.copies_of(c.dest[0]) | {c.dest[0]}:
+                    for lab in fn.variant_edges(sw, "Some"):
+                        ok_edges.add((sw[0], lab))
+            for b in fn.calls(r"ops::Try>?::branch$"):
+                if b.args and fn.producer(b.args[0]) is not None and re.search(r"ok_or(_else)?$", fn.producer(b.args[0]).name):
+                    pass
+    for i, c in enumerate(ins):
+        ok = bool(ok_edges) and c.node not in fn.reach([fn.entry], cut=ok_edges)
+        ctx.ob("R10.6", "dial_address/address-remembered-only-if-its-transport-is-installed#%d" % i, ok, site=fn.site(c.node), cfg=fx.cfg,
+               detail="installed-transport tests found: %d" % len(ok_edges))
 
 
 def r10_2(ctx, fx):
@@ -381,5 +422,6 @@ def run(ctx):
     r10_2(ctx, fx)
     r10_4(ctx, fx)
     r10_5(ctx, fx)
+    r10_6(ctx, fx)
     ctx.assume("supported_transport / is_local_address decide dialability and locality (their parser agreement with the transports is not decided here)")
     ctx.assume("invariant used inductively: AddressStore.addresses.len() <= max_capacity")
